@@ -86,3 +86,12 @@ let () =
   register "c14_wif_decode_seq" (function [ws; _mode] ->
     of_result (fun l -> VL (List.map (fun ((((v, net), ty), k), d) -> VT [VB v; VS net; VS ty; VB k; VB d]) l))
       (Model.c14_wif_decode_seq sha256 (List.map vb (vl ws))) | _ -> raise (Bad "arity"))
+;
+  (* armor layer for any label *)
+  register "c14_decode_pem" (function [pem] ->
+    of_result (fun r -> VB r) (Model.c14_decode_pem b64dec (vb pem)) | _ -> raise (Bad "arity"));
+  register "c14_encode_pem_default" (function [der] ->
+    ROk (VB (Model.c14_encode_pem_default b64enc (vb der))) | _ -> raise (Bad "arity"));
+  register "c14_pem_roundtrip" (function [label; der; ws1; ws2] ->
+    of_result (fun (pem, d) -> VT [VB pem; VB d]) (Model.c14_pem_roundtrip b64enc b64dec (vb label) (vb der) (vb ws1) (vb ws2))
+    | _ -> raise (Bad "arity"))
